@@ -2088,6 +2088,9 @@ class _Project:
         )
 
         self.asset_dg: "networkx.DiGraph[FileId]" = networkx.DiGraph()
+
+        # Text of the files last updated from an editor buffer rather than from disk
+        self.buffer_texts: Dict[FileId, str] = {}
         self.backend.on_config(self.config, branch)
 
     def get_page_ast(self, path: Path) -> n.Root:
@@ -2109,6 +2112,11 @@ class _Project:
         diagnostics: Dict[FileId, List[Diagnostic]] = {path: []}
         _, ext = os.path.splitext(path)
         pages: List[Tuple[Page, List[Diagnostic]]] = []
+        is_new_source = ext in RST_EXTENSIONS and not self.pages.keys_from_source(path)
+        if optional_text is None:
+            self.buffer_texts.pop(path, None)
+        else:
+            self.buffer_texts[path] = optional_text
         if ext in RST_EXTENSIONS:
             for page, page_diagnostics in parse_rst(self.parser, path, optional_text):
                 pages.append((page, page_diagnostics))
@@ -2148,7 +2156,13 @@ class _Project:
 
             self.backend.flush()
 
+        if is_new_source:
+            # Pages which looked for this file (e.g. through a :doc: role) when it
+            # did not exist yet have to be told that it is there now
+            self.update_dependents(path)
+
     def delete(self, fileid: FileId) -> None:
+        self.buffer_texts.pop(fileid, None)
         self.yaml_domain.delete(fileid.name)
 
         if fileid.suffix in RST_EXTENSIONS or self.yaml_domain.is_known_yaml(fileid):
@@ -2160,6 +2174,9 @@ class _Project:
             # This file no longer depends on any asset
             if fileid in self.asset_dg:
                 self.asset_dg.remove_edges_from(list(self.asset_dg.out_edges(fileid)))
+
+            # Pages which checked that this file exists have to look again
+            self.update_dependents(fileid)
         else:
             self.update_asset(fileid)
 
@@ -2354,11 +2371,10 @@ class _Project:
 
         logger.debug("Updated: %s", page.fileid)
 
-        # Update dependents
-        try:
-            self.asset_dg.remove_node(page.fileid)
-        except networkx.exception.NetworkXError:
-            pass
+        # Update dependents: forget what this page used to depend on, but not which pages
+        # depend on it (removing the node would also drop its incoming edges)
+        if page.fileid in self.asset_dg:
+            self.asset_dg.remove_edges_from(list(self.asset_dg.out_edges(page.fileid)))
         self.asset_dg.add_edges_from(
             (
                 page.fileid,
@@ -2381,13 +2397,23 @@ class _Project:
         with self._backend_lock:
             self.on_diagnostics(page.fileid, diagnostics_copy)
 
+    def update_dependents(self, fileid: FileId) -> None:
+        """Re-parse the pages which recorded a dependency on a source file that has just been
+        created or deleted. Their own contents are unchanged, so this does not cascade."""
+        if fileid not in self.asset_dg:
+            return
+
+        for page_id in list(self.asset_dg.predecessors(fileid)):
+            if page_id != fileid and self.pages.keys_from_source(page_id):
+                self.update(page_id, self.buffer_texts.get(page_id))
+
     def update_asset(self, fileid: FileId) -> None:
         # Rebuild any pages depending on this asset
         if fileid not in self.asset_dg:
             return
 
         for page_id in list(self.asset_dg.predecessors(fileid)):
-            self.update(page_id)
+            self.update(page_id, self.buffer_texts.get(page_id))
 
 
 class Project:
